@@ -528,6 +528,24 @@ class SymBytes:
     def __mul__(self, n):
         return type(self).of(self.items() * n)
 
+    def __mod__(self, args):
+        """printf-style formatting with a symbolic format string: forks on 'is this byte a %'; without any directive the
+        result is the string itself (or TypeError if arguments were given), with one the bytes are enumerated"""
+        if not self.ov:
+            return bytes(self.base) % args
+        has_pct = False
+        for it in self.items():
+            if bool(it == 37):
+                has_pct = True
+                break
+        if has_pct:
+            return concrete_bytes(self) % args
+        if args == () or args == b'' and False:
+            return type(self)(self.base, self.ov)
+        if isinstance(args, tuple) and len(args) == 0:
+            return type(self)(self.base, self.ov)
+        raise TypeError('not all arguments converted during bytes formatting')
+
     def __eq__(self, o):
         p = _parts(o)
         if p is None:
